@@ -59,13 +59,25 @@ func init() {
 	SetType.Dict["update"] = MustNewMethod("update", func(self Object, args Tuple) (Object, error) {
 		setSelf := self.(*Set)
 		for _, arg := range args {
-			// Read the iterable completely first - it may be the set itself
-			items, err := SequenceTuple(arg)
+			if _, isSet := arg.(*Set); isSet {
+				// a set (maybe this one) is read completely first
+				items, err := SequenceTuple(arg)
+				if err != nil {
+					return nil, err
+				}
+				for _, item := range items {
+					setSelf.Add(item)
+				}
+				continue
+			}
+			// any other iterable is consumed item by item: what it yielded
+			// before raising stays added
+			err := Iterate(arg, func(item Object) bool {
+				setSelf.Add(item)
+				return false
+			})
 			if err != nil {
 				return nil, err
-			}
-			for _, item := range items {
-				setSelf.Add(item)
 			}
 		}
 		return NoneType{}, nil
